@@ -82,6 +82,12 @@ def run(cfg, full=True):
     if cfg["solver"] == "evolutionary":
         base = EvolutionarySolver
         kw = dict(n_emitter=cfg["n_emitter"], n_photon=cfg["n"])
+        if cfg.get("warm"):
+            # warm start: the user hands in an initial circuit (here: the solver's own initialisation for a fixed assignment)
+            tmp = EvolutionarySolver(target=target, metric=Infidelity(target), compiler=make_compiler(cfg["compiler"]),
+                                     n_emitter=cfg["n_emitter"], n_photon=cfg["n"])
+            kw["circuit"] = tmp.initialization([k % cfg["n_emitter"] for k in range(cfg["n"])],
+                                               [k % cfg["n"] for k in range(cfg["n_emitter"])])
     else:
         base = HybridEvolutionarySolver
         kw = {}
